@@ -733,6 +733,46 @@ func (ex *Exec) havocPtrIndexes(p *PtrInfo) *PtrInfo {
 }
 
 // rangeIndexAlloc finds the hidden index cell of a range-over-slice/array/string loop.
+// loopLeftEarly: some edge leaves the loop from a block other than the header and does not
+// lead straight to a return.
+func loopLeftEarly(li *loopInfo) string {
+	for b := range li.blocks {
+		if b == li.header {
+			continue
+		}
+		for _, s := range b.Succs {
+			if li.blocks[s] {
+				continue
+			}
+			t := s
+			for steps := 0; steps < 8; steps++ {
+				if len(t.Instrs) == 0 {
+					break
+				}
+				last := t.Instrs[len(t.Instrs)-1]
+				if _, ok := last.(*ssa.Return); ok {
+					t = nil
+					break
+				}
+				if _, ok := last.(*ssa.Panic); ok {
+					t = nil
+					break
+				}
+				if j, ok := last.(*ssa.Jump); ok && len(t.Succs) == 1 {
+					_ = j
+					t = t.Succs[0]
+					continue
+				}
+				break
+			}
+			if t != nil {
+				return "the loop can be left before its end without returning (break)"
+			}
+		}
+	}
+	return ""
+}
+
 // isMapRangeLoop: the loop header advances a map/string iterator (ssa.Next).
 func isMapRangeLoop(li *loopInfo) bool {
 	for _, in := range li.header.Instrs {
@@ -768,6 +808,19 @@ func (ex *Exec) enterLoop(fr *Frame, li *loopInfo, st *State) *State {
 			ex.curClause = loopName + " invariant " + inv.Label
 			c := ex.evalSpecBool(env, inv.Expr)
 			ex.obligeSpec(st, "inv-entry", loopName+":"+inv.Label, c, inv, nil)
+		}
+	}
+	// exhaustive loops: left only through the header (range exhausted / condition false) or
+	// by returning from the function
+	if ex.discover == nil && lc != nil && lc.Exhaustive {
+		if why := loopLeftEarly(li); why != "" {
+			saved := st.pc
+			n := len(ex.obls)
+			ex.oblige(st, "shape", loopName+"-exhaustive", ex.tb.False, nil, why)
+			st.pc = saved
+			if len(ex.obls) > n && li.minPos.IsValid() {
+				ex.obls[n].Pos = ex.prog.fset.Position(li.minPos)
+			}
 		}
 	}
 	// termination argument (functions under the no-spin property): a decreases clause, a
